@@ -176,6 +176,9 @@ public:
   String& append(const char* str, usize len)
   {
     usize newLen = data->len + len;
+    String copy;
+    if(data->ref != 1 || newLen > data->capacity)
+      copy = *this; // detach will move to another buffer: str may point into the current one
     detach(data->len, newLen);
     Memory::copy((char*)data->str + data->len, str, len * sizeof(char));
     ((char*)data->str)[data->len = newLen] = '\0';
